@@ -293,6 +293,10 @@ func (j *Job) evaluateClusterStatus() {
 func (j *Job) start() error {
 	j.log.Info("starting")
 
+	// A checkpoint that was in progress when the previous assembly failed can
+	// never complete
+	j.snapshotStore.DiscardPendingCheckpoint()
+
 	// Get the job's current checkpoint which may be nil
 	ckpt := j.snapshotStore.CurrentCheckpoint()
 
